@@ -1,6 +1,8 @@
 package astvalidation
 
 import (
+	"bytes"
+
 	"github.com/wundergraph/graphql-go-tools/v2/pkg/ast"
 	"github.com/wundergraph/graphql-go-tools/v2/pkg/astvisitor"
 	"github.com/wundergraph/graphql-go-tools/v2/pkg/operationreport"
@@ -18,19 +20,68 @@ type subscriptionSingleRootFieldVisitor struct {
 	*astvisitor.Walker
 }
 
+// EnterDocument checks spec 5.2.3.1: the fields collected from the root selection set (through inline
+// fragments and fragment spreads) form exactly one entry - one response name - which is not an
+// introspection field.
 func (s *subscriptionSingleRootFieldVisitor) EnterDocument(operation, definition *ast.Document) {
-	for i := range operation.OperationDefinitions {
-		if operation.OperationDefinitions[i].OperationType == ast.OperationTypeSubscription {
-			selections := len(operation.SelectionSets[operation.OperationDefinitions[i].SelectionSet].SelectionRefs)
-			if selections > 1 {
-				subscriptionName := operation.Input.ByteSlice(operation.OperationDefinitions[i].Name)
-				s.StopWithExternalErr(operationreport.ErrSubscriptionMustOnlyHaveOneRootSelection(subscriptionName))
-				return
-			} else if selections == 1 {
-				ref := operation.SelectionSets[operation.OperationDefinitions[i].SelectionSet].SelectionRefs[0]
-				if operation.Selections[ref].Kind == ast.SelectionKindField {
-					return
+	for i := range operation.RootNodes {
+		if operation.RootNodes[i].Kind != ast.NodeKindOperationDefinition {
+			continue
+		}
+		ref := operation.RootNodes[i].Ref
+		if operation.OperationDefinitions[ref].OperationType != ast.OperationTypeSubscription || !operation.OperationDefinitions[ref].HasSelections {
+			continue
+		}
+		var responseNames [][]byte
+		var introspectionField []byte
+		s.collectRootFields(operation, operation.OperationDefinitions[ref].SelectionSet, map[int]struct{}{}, &responseNames, &introspectionField)
+		subscriptionName := operation.Input.ByteSlice(operation.OperationDefinitions[ref].Name)
+		if len(responseNames) > 1 {
+			s.StopWithExternalErr(operationreport.ErrSubscriptionMustOnlyHaveOneRootSelection(subscriptionName))
+			return
+		}
+		if introspectionField != nil {
+			s.StopWithExternalErr(operationreport.ErrSubscriptionRootMustNotBeIntrospectionField(subscriptionName, introspectionField))
+			return
+		}
+	}
+}
+
+func (s *subscriptionSingleRootFieldVisitor) collectRootFields(operation *ast.Document, selectionSet int, visitedFragments map[int]struct{}, responseNames *[][]byte, introspectionField *[]byte) {
+	for _, selectionRef := range operation.SelectionSets[selectionSet].SelectionRefs {
+		ref := operation.Selections[selectionRef].Ref
+		switch operation.Selections[selectionRef].Kind {
+		case ast.SelectionKindField:
+			name := operation.FieldNameBytes(ref)
+			if bytes.HasPrefix(name, []byte("__")) && *introspectionField == nil {
+				*introspectionField = name
+			}
+			responseName := operation.FieldAliasOrNameBytes(ref)
+			known := false
+			for _, other := range *responseNames {
+				if bytes.Equal(other, responseName) {
+					known = true
+					break
 				}
+			}
+			if !known {
+				*responseNames = append(*responseNames, responseName)
+			}
+		case ast.SelectionKindInlineFragment:
+			if operation.InlineFragments[ref].HasSelections {
+				s.collectRootFields(operation, operation.InlineFragments[ref].SelectionSet, visitedFragments, responseNames, introspectionField)
+			}
+		case ast.SelectionKindFragmentSpread:
+			fragmentRef, exists := operation.FragmentDefinitionRef(operation.FragmentSpreadNameBytes(ref))
+			if !exists {
+				continue
+			}
+			if _, visited := visitedFragments[fragmentRef]; visited {
+				continue
+			}
+			visitedFragments[fragmentRef] = struct{}{}
+			if operation.FragmentDefinitions[fragmentRef].HasSelections {
+				s.collectRootFields(operation, operation.FragmentDefinitions[fragmentRef].SelectionSet, visitedFragments, responseNames, introspectionField)
 			}
 		}
 	}
